@@ -569,7 +569,9 @@ class Interp:
             return lift2("*", -1, v)
         if isinstance(n.op, ast.UAdd): return v
         if isinstance(n.op, ast.Invert):
-            return pv_apply(lambda x: (not x) if isinstance(x, bool) else Opaque("~"), v)
+            inv = lambda x: (not x) if isinstance(x, bool) else Opaque("~")
+            if isinstance(v, Arr): return Arr(v.axes, pv_apply(inv, v.body))
+            return pv_apply(inv, v)
         return Opaque("unary")
 
     def binop(s, op, a, b):
